@@ -161,7 +161,7 @@ def run (args : List String) : String :=
   | ["closed-ops", _] =>
     "close=ok next=closed until=closed queue=closed flush=closed send=closed late=closed latewrite=ok written=0"
   | ["double-close", _] => if closeChecksClosedFirst then "close=ok close2=closed" else "close=ok panic"
-  | ["conn-close", n, _] =>
+  | ["conn-close", n, _] | ["conn-close", n, _, _] =>   -- fourth argument: a logical channel closed earlier
     match n.toNat? with
     | some n =>
       let chans := (List.range n).map (fun i => s!"ch{i}=closed")
